@@ -101,7 +101,7 @@ pub fn run(ctx: &Ctx) -> Report {
     rep.assumptions.insert(drop_privileges());
     let scratch = Scratch::new("c01");
     let root = scratch.path.clone();
-    let sets = ctx.share(ctx.scale(160, 4000)) as u32;
+    let sets = ctx.share(ctx.scale(160, 10000)) as u32;
     let rep_cell = std::cell::RefCell::new(&mut rep);
     let counter = std::cell::Cell::new(0u64);
     let failing: std::cell::RefCell<Option<(ConcCase, String, String)>> = std::cell::RefCell::new(None);
